@@ -259,7 +259,7 @@ void dupNameRobustness(const std::string& bytes, uint64_t seed, const std::strin
 }
 
 struct Plan { int api; int synPer; };
-Plan plan() { return g_cfg.tier ? Plan{1200, 12} : Plan{60, 1}; }
+Plan plan() { return g_cfg.tier ? Plan{1200, 12} : Plan{120, 1}; }
 
 std::vector<std::pair<std::string, std::string>> g_models;   // name, bytes (models with at least one shape)
 void init() {
